@@ -1,4 +1,4 @@
-//! Rewrite rules R0..R18 (DESIGN.md 2.1). Every rule is a syn visitor that emits text edits; a rule is
+//! Rewrite rules R0..R20 (DESIGN.md 2.1). Every rule is a syn visitor that emits text edits; a rule is
 //! re-run on the re-parsed text until it finds nothing more, so nested occurrences are handled.
 
 use crate::{apply_edits, br, nr, txt, Ctx, Edit};
@@ -18,6 +18,8 @@ pub fn run_all(text: &str, ctx: &Ctx, log: &mut BTreeMap<&'static str, usize>) -
         ("R7", r7),
         ("R3", r3),
         ("R12", r12),
+        ("R19", r19),
+        ("R20", r20),
         ("R11", r11),
         ("R14", r14),
         ("R13", r13),
@@ -1474,4 +1476,81 @@ impl<'a, 'ast> Visit<'ast> for R18<'a> {
 }
 fn r18(src: &str, f: &syn::File, _c: &Ctx, e: &mut Vec<Edit>) {
     R18 { src, edits: e }.visit_file(f);
+}
+
+// ---------------------------------------------------------------------------------------------- R19
+// `if let Some(N) = X.iter_mut().find(|p| P) { THEN } else { ELSE }`  ->  the first element that satisfies P gets THEN, none: ELSE
+//   { let mut found_ = false;
+//     for el__ in X.iter_mut() { if !found_ { let hit_ = { let p = &el__; P }; if hit_ { found_ = true; let N = el__; THEN } } }
+//     if !found_ ELSE }
+// (THEN contains no break / return; `find` hands the closure a reference to the item, here `&&mut T`)
+struct R19<'a> {
+    src: &'a str,
+    edits: &'a mut Vec<Edit>,
+}
+impl<'a, 'ast> Visit<'ast> for R19<'a> {
+    fn visit_expr_if(&mut self, ifx: &'ast syn::ExprIf) {
+        if let Expr::Let(l) = &*ifx.cond {
+            if let (Pat::TupleStruct(ts), Expr::MethodCall(fm)) = (&*l.pat, &*l.expr) {
+                let is_some = ts.path.segments.last().map(|s| s.ident == "Some").unwrap_or(false);
+                if is_some && ts.elems.len() == 1 && fm.method == "find" && fm.args.len() == 1 {
+                    if let (Pat::Ident(n), Expr::Closure(c), Expr::MethodCall(im)) = (&ts.elems[0], &fm.args[0], &*fm.receiver) {
+                        if im.method == "iter_mut" && im.args.is_empty() && c.inputs.len() == 1 && is_simple_ident_pat(&c.inputs[0]) {
+                            if let Some((_, eb)) = &ifx.else_branch {
+                                let x = txt(self.src, &*im.receiver);
+                                let p = txt(self.src, &c.inputs[0]);
+                                let pred = txt(self.src, &*c.body);
+                                let then = txt(self.src, &ifx.then_branch);
+                                let els = txt(self.src, &**eb);
+                                let (s, e) = nr(ifx);
+                                self.edits.push(Edit {
+                                    start: s,
+                                    end: e,
+                                    text: format!(
+                                        "{{ let mut found_ = false; for el__ in {x}.iter_mut() {{ if !found_ {{ let hit_ = {{ let {p} = &el__; {pred} }}; if hit_ {{ found_ = true; let {n} = el__; {then} }} }} }} if !found_ {els} }}",
+                                        x = x, p = p, pred = pred, n = n.ident, then = then, els = els
+                                    ),
+                                    rule: "R19",
+                                });
+                                return;
+                            }
+                        }
+                    }
+                }
+            }
+        }
+        visit::visit_expr_if(self, ifx);
+    }
+}
+fn r19(src: &str, f: &syn::File, _c: &Ctx, e: &mut Vec<Edit>) {
+    R19 { src, edits: e }.visit_file(f);
+}
+
+// ---------------------------------------------------------------------------------------------- R20
+// statement `X.iter().for_each(|PAT| BODY);`  ->  `for PAT in X.iter() { BODY }`   (the definition of Iterator::for_each)
+struct R20<'a> {
+    src: &'a str,
+    edits: &'a mut Vec<Edit>,
+}
+impl<'a, 'ast> Visit<'ast> for R20<'a> {
+    fn visit_stmt(&mut self, st: &'ast Stmt) {
+        if let Stmt::Expr(Expr::MethodCall(m), Some(_)) = st {
+            if m.method == "for_each" && m.args.len() == 1 {
+                if let (Expr::Closure(c), Expr::MethodCall(it)) = (&m.args[0], &*m.receiver) {
+                    if it.method == "iter" && it.args.is_empty() && c.inputs.len() == 1 {
+                        let body = txt(self.src, &*c.body);
+                        let body = if matches!(&*c.body, Expr::Block(_)) { body.to_string() } else { format!("{{ {}; }}", body) };
+                        let recv = txt(self.src, &*it.receiver);
+                        let (s, e) = nr(st);
+                        self.edits.push(Edit { start: s, end: e, text: format!("{{ let fe_src_ = {}; for {} in fe_src_.iter() {} }}", recv, txt(self.src, &c.inputs[0]), body), rule: "R20" });
+                        return;
+                    }
+                }
+            }
+        }
+        visit::visit_stmt(self, st);
+    }
+}
+fn r20(src: &str, f: &syn::File, _c: &Ctx, e: &mut Vec<Edit>) {
+    R20 { src, edits: e }.visit_file(f);
 }
